@@ -433,6 +433,8 @@ def run(ctx):
     assembler_transparency(ctx)
     optimizer_window(ctx)
     acceptance(ctx)
+    from .. import gensim
+    gensim.check_flag_equivalence(ctx, 'C08')
     return ('Control-dependence slice of the debug flag over the CFGs of '
             'qbee/codegen.py, qbee/qvm_codegen.py and Compiler.compile '
             '(what may execute only with or only without debug info), '
